@@ -388,9 +388,15 @@ def display_translation(ctx: Ctx):
 def duplicates(ctx: Ctx):
     ex = ctx.repo.cls("collator.py", "ExplicitOrderCollator")
     m = ctx.repo.lookup(ex, "_element_order_descriptors")
-    src = ast.unparse(m.node)
-    ok = "if not element.derived" in src and "remaining_element_idxs_by_id.pop(element_id)" in src
-    ctx.ob("duplicate-free", "collator.py::ExplicitOrderCollator._element_order_descriptors", ok, True, ok, "listed ids are consumed from the remaining map (first mention wins), leftovers follow; derived elements are placed separately")
+    from ..orderkit import dedupe_idioms, explicit_order_facts
+
+    f = explicit_order_facts(m.node)
+    where = "collator.py::ExplicitOrderCollator._element_order_descriptors"
+    if f["lookup_without_consumption"]:
+        ctx.violated("duplicate-free", where, f["lookup_without_consumption"], "listed ids are consumed from the remaining map", "a repeated id would be listed once per mention")
+    else:
+        ok = True if (f["listed_pop_guarded"] and f["map_excludes_derived"] and f["leftovers"]) else None
+        ctx.ob("duplicate-free", where, {k: v for k, v in f.items() if k in ("map", "listed_pop_guarded", "map_excludes_derived", "leftovers")}, "listed ids are consumed from the remaining map (first mention wins), leftovers follow; derived elements are placed separately", ok)
     m = ctx.repo.lookup(ex, "_derived_element_orderings")
     body = SUMMARIZER.summarize(m.node)
     ok = any(isinstance(n, ast.comprehension) and [u(i) for i in n.ifs] == ["element.derived"] for n in ast.walk(body))
@@ -404,24 +410,37 @@ def duplicates(ctx: Ctx):
     # sort-by-value: fixed lists come from the user (may repeat / overlap): a dedupe idiom is required
     sv = ctx.repo.cls("collator.py", "SortByValueCollator")
     m = ctx.repo.lookup(sv, "_display_order")
-    has_fromkeys = any(isinstance(n, ast.Call) and u(n.func) == "dict.fromkeys" for n in ast.walk(m.node))
+    idioms = dedupe_idioms(m.node)
+    # a dict / set keyed by the idx itself (a dict used as an ordered set) lists each idx once by construction
+    if any(isinstance(n, (ast.DictComp, ast.SetComp)) for n in ast.walk(SUMMARIZER.summarize(m.node))):
+        idioms = sorted(set(idioms) | {"keyed-collection"})
     it = ctx.repo.lookup(sv, "_iter_fixed_idxs")
-    it_src = ast.unparse(it.node)
-    iter_dedupes = ".pop(" in it_src or "seen" in it_src
-    bottom = ast.unparse(ctx.repo.lookup(sv, "_bottom_fixed_idxs").node)
-    bottom_excl = "_top_fixed_idxs" in bottom
-    ok = has_fromkeys or (iter_dedupes and bottom_excl)
+    iter_idioms = dedupe_idioms(it.node) if it is not None else []
+    bottom_m = ctx.repo.lookup(sv, "_bottom_fixed_idxs")
+    bottom_excl = bottom_m is not None and "_top_fixed_idxs" in ast.unparse(bottom_m.node)
+    ok = bool(idioms) or (bool(iter_idioms) and bottom_excl)
+    # a violation needs positive evidence: the order is a PLAIN concatenation of the five groups (the fixed lists come
+    # from the user and may repeat / overlap) and no de-duplicating idiom is in sight; anything else is undecided
+    value = SUMMARIZER.summarize(m.node)
+    plain = all(isinstance(n, (ast.BinOp, ast.Attribute, ast.Name, ast.Call, ast.IfExp, ast.Tuple, ast.GeneratorExp, ast.comprehension, ast.Compare, ast.Subscript, ast.Constant, ast.Load, ast.Store, ast.operator, ast.cmpop, ast.expr_context, ast.boolop, ast.unaryop, ast.UnaryOp, ast.BoolOp, ast.keyword, ast.ListComp, ast.List)) for n in ast.walk(value)) and "_top_fixed_idxs" in u(value) and "_bottom_fixed_idxs" in u(value) and "__opaque__" not in u(value)
     ctx.ob(
         "duplicate-free",
         "collator.py::SortByValueCollator._display_order",
-        f"dict.fromkeys on the concatenation: {has_fromkeys}; fixed ids de-duplicated: {iter_dedupes}; bottom excludes top: {bottom_excl}",
+        f"de-duplicating idioms on the concatenation: {idioms}; in _iter_fixed_idxs: {iter_idioms}; bottom excludes top: {bottom_excl}",
         "the concatenation top-subtotals + top-fixed + body + bottom-fixed + bottom-subtotals lists every idx at most once even when the fixed lists repeat or overlap",
-        ok,
+        True if ok else (False if plain else None),
         "user supplied fixed lists are MaybeDup until consumed through a de-duplicating idiom",
     )
     body_m = ctx.repo.lookup(sv, "_body_idxs")
-    ok = "if i not in fixed_idxs" in ast.unparse(body_m.node) and "frozenset(self._top_fixed_idxs + self._bottom_fixed_idxs)" in ast.unparse(body_m.node)
-    ctx.ob("duplicate-free", "collator.py::SortByValueCollator._body_idxs", ok, True, ok, "the sorted body excludes every fixed element")
+    from ..stmts import match_any, resolver
+
+    res = resolver(body_m.node)
+    filt = [v for n in ast.walk(body_m.node) if isinstance(n, ast.Compare) and len(n.ops) == 1 and isinstance(n.ops[0], (ast.NotIn, ast.In)) for v in res(n)]
+    ok, why = match_any(filt, ["i not in frozenset(self._top_fixed_idxs + self._bottom_fixed_idxs)", "i not in set(self._top_fixed_idxs + self._bottom_fixed_idxs)", "i not in self._top_fixed_idxs + self._bottom_fixed_idxs"])
+    if ok is False:
+        # a membership test over something else is only a violation when it is the same test with one group missing
+        ok = False if any(("_top_fixed_idxs" in u(x)) != ("_bottom_fixed_idxs" in u(x)) for x in filt) else None
+    ctx.ob("duplicate-free", "collator.py::SortByValueCollator._body_idxs", [u(x)[:90] for x in filt][:3], "i not in frozenset(top fixed + bottom fixed)", ok, why or "the sorted body excludes every fixed element")
 
 
 # --------------------------------------------------------------------------- 7
@@ -454,14 +473,26 @@ def rendering_typestate(ctx: Ctx):
     for cname in ("_BaseAnchoredCollator", "SortByValueCollator"):
         ci = ctx.repo.cls("collator.py", cname)
         e = expand(ctx.repo, ci, "_display_order", stop=lambda mm: True)
-        ok = False
-        if isinstance(e, ast.IfExp) and u(e.test) == "self._format == ORDER_FORMAT.BOGUS_IDS":
-            signed = u(e.orelse)
-            r = e.body
-            if isinstance(r, ast.Call) and u(r.func) == "tuple" and len(r.args) == 1 and isinstance(r.args[0], ast.GeneratorExp):
-                g = r.args[0]
-                ok = len(g.generators) == 1 and u(g.generators[0].iter) == signed and not g.generators[0].ifs
-        ctx.ob("rendering-last", f"collator.py::{cname}._display_order", ok, True, ok, "the id rendering is an elementwise map of the finished (filtered, de-duplicated) signed order - nothing is filtered or reordered after it")
+        where = f"collator.py::{cname}._display_order"
+        verdict, why = None, "the value is not a conditional on self._format"
+        if isinstance(e, ast.IfExp) and "self._format" in u(e.test) and "BOGUS_IDS" in u(e.test):
+            neg = isinstance(e.test, ast.Compare) and isinstance(e.test.ops[0], ast.NotEq) or (isinstance(e.test, ast.UnaryOp) and isinstance(e.test.op, ast.Not))
+            rendered, signed = (e.orelse, e.body) if neg else (e.body, e.orelse)
+            r = rendered
+            while isinstance(r, ast.Call) and u(r.func) in ("tuple", "list") and len(r.args) == 1:
+                r = r.args[0]
+            if isinstance(r, (ast.GeneratorExp, ast.ListComp)) and len(r.generators) == 1:
+                g = r.generators[0]
+                same_iter = u(g.iter) == u(signed) or u(g.iter) == f"tuple({u(signed)})" or f"tuple({u(g.iter)})" == u(signed)
+                if g.ifs:
+                    verdict, why = False, f"items are filtered AFTER rendering: {[u(c) for c in g.ifs]}"
+                elif same_iter:
+                    verdict, why = True, ""
+                else:
+                    verdict, why = None, "the rendering iterates something other than the signed order of the other branch"
+            else:
+                verdict, why = None, "the rendered branch is not an elementwise map"
+        ctx.ob("rendering-last", where, u(e)[:200], "rendered = elementwise map of the finished signed order", verdict, why or "the id rendering is an elementwise map of the finished (filtered, de-duplicated) signed order - nothing is filtered or reordered after it")
 
 
 def _order_uses_format(ctx: Ctx) -> bool:
